@@ -67,4 +67,26 @@ PROPS = {
         "rule": "One evaluation = one compilation compared with the harness's own evaluation of the input on all 2^n assignments (n <= 10): BDD compile_cnf under a random order permutation and either cache; compile_cnf_with_assignments(c,m) for random partial assignments m of every size (must have the restricted table AND be pointer-equal to condition_model(compile_cnf(c),m)); compile_plan(BottomUpPlan::from_dtree(DTree::from_cnf(c, elim))) for elim in {linear, min-fill, FORCE, random} (right table AND pointer-equal to compile_cnf); SDD compile_cnf / compile_plan under right-linear, left-linear, balanced, random and dtree-derived vtrees; compile_logical_expr for random expression trees over all 7 constructors (depth <= 8) on BDD and SDD; random plans with constants. CNFs include the empty formula, empty clauses, units, repeated and complementary literals, unused indices, up to 200 clauses. Non-trivial = the input's function is neither constant nor a literal; distinct = distinct (function, route/configuration) pairs. Cnf::eval is used only as a cross-check of the oracle (disagreements are counted in evidence).",
         "assumptions": ASSUME_COMMON + ["S9: FORCE is not applied to CNFs with an empty clause and no dtree is built for the empty formula (outside the listed domains)"],
     },
+    "C06": {
+        "profiles": {"quick": ["mon"], "thorough": ["mon", "monrel"]},
+        "scale": {"quick": 1, "thorough": 40},
+        "floors": {
+            "quick": {"compilations": 5000, "conditionings": 50000},
+            "thorough": {"compilations": 200000},
+        },
+        "rule": "One evaluation = one top-down compilation (StandardDecisionNNFBuilder or SemanticDecisionNNFBuilder over the 64-bit prime) of a generated CNF under a decision order: the result is walked structurally into a truth table and compared with the harness's evaluation of the clause list; is_false() must coincide with unsatisfiability; no node's variable may re-occur below it (no path decides a variable twice); condition(r,v,b) and condition(!r,v,b) are compared with the cofactor for every variable and value. Regime allorders: every permutation of the variables for CNFs over <= 4 variables; rand: random permutations, <= 9 variables, both stores on the same input. CNFs are biased to unit clauses, implication chains with a unit at one end, UNSAT cores found only after branching, and the same clause pattern on two disjoint variable blocks (component-cache hits); empty formula, empty clauses, tautological clauses and duplicate literals occur. Non-trivial = function neither constant nor literal; distinct = distinct (function, order, store) triples.",
+        "exhaustive_note": "for CNFs over <= 4 variables every permutation of the variables is used as decision order; the CNFs themselves are sampled",
+        "assumptions": ASSUME_COMMON + ["semantic-hash store: a 64-bit hash collision would be a false alarm with probability ~2^-50 per run; none has been observed"],
+    },
+    "C09": {
+        "profiles": {"quick": ["mon"], "thorough": ["mon", "monrel"]},
+        "scale": {"quick": 1, "thorough": 40},
+        "floors": {
+            "quick": {"solvers": 1500, "decides": 50000, "pops": 15000, "states_checked": 30000, "decides_with_propagation": 3000,
+                      "hash_repeats": 1000, "states_sat": 500, "decide_unsat": 1000},
+            "thorough": {"decides": 2000000},
+        },
+        "rule": "One evaluation = one solver driven through a random decide/pop history (30-150 steps; long regime 300-600) over a generated CNF with <= 10 variables (clause widths 1-5, duplicate literals, tautological clauses, occasionally an empty clause or the empty formula). After construction and after every decide the observable state (model through the read-only hook, is_set, difference_iter, is_sat, cur_hash) is checked: (1) every assigned value is entailed -- brute force over all models of CNF and decisions; (2) UNSAT / None only if no model extends the decisions, and a refused decision leaves the state unchanged; (3) no clause falsified or with exactly one unassigned literal and no true literal, and the model contains the closure computed by an independent naive propagator; (4) the state observed after pop equals field by field the state recorded before the matching decide (pops unwind 1..k levels); (5) is_sat iff every non-tautological clause has a true literal; (6) per solver a map hash -> residual formula: a second, different residual under the same hash is a violation (asserted only while the product of all occurrence primes is < 2^128). Decisions re-decide assigned variables and decide against implied values. Non-trivial = at least one decision propagated a further literal; distinct = distinct (CNF) inputs.",
+        "assumptions": ASSUME_COMMON + ["S6: decide() returning UNSAT pushes nothing, so the harness pops only after SAT/Unknown and never pops the two base states"],
+    },
 }
